@@ -791,7 +791,8 @@ fn check_nalgebra<T: Jetty<F = f64> + RealField>(tname: &str, ctx: &Ctx, shard: 
                         (Some(lj), Some(vj)) => {
                             // nalgebra's own convergence criterion leaves a relative residual of up to ~2.5e-11
                             // on plain f64 matrices (measured); allow 1e-9 before attributing to K4
-                            let tol = (K * (n * n) as f64 * ((maxdeg + 1) * (maxdeg + 1)) as f64).max(1e-9 / u);
+                            // (beyond the property's sizes 1..6 nalgebra's own residual grows: 1.13e-9 relative observed at n = 10)
+                            let tol = (K * (n * n) as f64 * ((maxdeg + 1) * (maxdeg + 1)) as f64).max(1e-9 / u * (n as f64 / 6.0).powi(2).max(1.0));
                             if sparse {
                                 // K6: Householder tridiagonalisation takes sqrt of a sum of squares whose real part is 0
                                 check_eigen(&mut acc, &format!("nalgebra symmetric_eigen[zero off-diagonal real parts] on {}", tname), format!("nalgebra-eigen:{}", tname), K6_SIG, f64::INFINITY, &s.jets, &lj, &vj, &b, tol, u, &ecase);
